@@ -110,7 +110,7 @@ CHECKS = {
     "C01": dict(
         level="exploration", design="DESIGN.md §8.6 (narrow claim; §4 explains why the full property is out of reach)",
         technique="CrossHair (z3) enumerates packages assembled from a menu of awkward module files and certifies exhaustion; the real analysis, rendering and exit-status code run on each",
-        text="Narrow claim, bounded-exhaustive exploration: for every package of 2 (thorough 3) modules drawn from a menu of 30 module files - 5 that do not parse (syntax error, NUL byte, inconsistent indentation, undecodable bytes, unknown coding), un-evaluable __all__/__docformat__ values, every statement form the builder special-cases (decorators, metaclass keywords, match, walrus/star targets, type aliases, async forms, except*, overloads, duplicates, bad fields, surrogates and control characters in constants and docstrings, empty file) - System.addPackage + process(), the TemplateWriter, the inventory writer and driver.main's exit status computation complete without an uncaught exception, every file is listed as a module, every unparsable file is reported by a message naming it, a healthy sibling is fully documented, and the exit status is 0, 2 or 3. Nothing is claimed for inputs outside the menu; hangs are not decided.",
+        text="Narrow claim, bounded-exhaustive exploration: for every project made of a root module plus a package of 2 (thorough 3) modules drawn from a menu of 46 module files - 5 that do not parse (syntax error, NUL byte, inconsistent indentation, undecodable bytes, unknown coding), un-evaluable __all__/__docformat__ values, every statement form the builder special-cases (decorators, metaclass keywords, match, walrus/star targets, type aliases, async forms, except*, overloads, duplicates, bad fields, surrogates and control characters in constants and docstrings, empty file), modules importing / re-exporting their siblings and the second root, extension decorators with arguments they do not expect, __doc__ assignments, numbers too long to print, odd string annotations; and for a single or second root named like a file the writer creates itself (h_root_named) - System.addPackage + process(), the TemplateWriter, the inventory writer and driver.main's exit status computation complete without an uncaught exception, every file is listed as a module, every unparsable file is reported by a message naming it, a healthy sibling is fully documented, and the exit status is 0, 2 or 3. Nothing is claimed for inputs outside the menu; hangs are not decided.",
         note="Trusted: CrossHair's exhaustion verdict over the choice variables; the menu in harness/c01_total.py. File-system side effects unblocked (mkdtemp only).",
     ),
     "C10": dict(
